@@ -450,6 +450,16 @@ def check_owned_inputs(ctx, rule, f, sites):
         name = b.locals[r].get("name") or ("_%d" % r)
         reach = b.reachable_from(blk, avoid_blocks=movers - {blk})
         bad = [loc for loc in pend if loc[0] in reach]
+        # .. or hands the poll's own result back (`recv.poll(cx)` as the tail expression): Pending whenever the future is pending
+        site_loc = (blk, len(b.blocks[blk]["stmts"]))
+        for loc, kind, payload in blocks_assigning_ret(b):
+            if loc[0] not in reach and loc != site_loc and loc[0] != blk:
+                continue
+            e_ = b.expr_of_rv(payload, 10, ()) if kind == "assign" else (b.expr_of_call(payload, 10, ()) if kind == "call" else None)
+            if kind == "call" and loc == site_loc:
+                bad.append(loc)
+            elif e_ is not None and forwarded_site(e_, {site_loc: "x"}):
+                bad.append(loc)
         where = b.line_at((blk, 10 ** 6))
         if bad:
             ctx.violated(rule, f, "pending-with-dropped-input:%s" % name, b.line_at(bad[0]),
